@@ -237,6 +237,25 @@ def build_config(spec, workdir):
             if cfg.has_option(sec, "number_event_handlers"):
                 cfg.set(sec, "number_event_handlers", str(max(int(cfg.get(sec, "number_event_handlers")),
                                                               int(spec["min_event_handlers"]))))
+    if spec.get("eoc_deactivates_warmup_sampling"):
+        # an end-of-chain tagger (ActiveGlobalStateInStateTagger) that carries a deactivate list: a second, 'warm-up' sampling
+        # tagger runs until the first end of chain, which deactivates and trashes it; the main sampling tagger keeps naming it
+        # in its create list, which must yield nothing once it is deactivated
+        t = cfg.get("TagActivator", "taggers")
+        cfg.set("TagActivator", "taggers", t.rstrip().rstrip(",") + ",\nwarmup_sampling (no_in_state_tagger)")
+        cfg.add_section("WarmupSampling")
+        cfg.set("WarmupSampling", "create", "warmup_sampling")
+        cfg.set("WarmupSampling", "trash", "warmup_sampling")
+        cfg.set("WarmupSampling", "event_handler", "warmup_sampling_event_handler (fixed_interval_sampling_event_handler)")
+        cfg.add_section("WarmupSamplingEventHandler")
+        cfg.set("WarmupSamplingEventHandler", "sampling_interval", "0.0931")
+        cfg.set("WarmupSamplingEventHandler", "output_handler", cfg.get("FixedIntervalSamplingEventHandler", "output_handler"))
+        cfg.set("Sampling", "create", cfg.get("Sampling", "create") + ", warmup_sampling")
+        cfg.set("Sampling", "trash", cfg.get("Sampling", "trash") + ", warmup_sampling")
+        cfg.set("StartOfRun", "create", cfg.get("StartOfRun", "create") + ", warmup_sampling")
+        cfg.set("EndOfRun", "trash", cfg.get("EndOfRun", "trash") + ", warmup_sampling")
+        cfg.set("EndOfChain", "trash", cfg.get("EndOfChain", "trash") + ", warmup_sampling")
+        cfg.set("EndOfChain", "deactivate", "warmup_sampling")
     if spec.get("repeat_trash_tags"):
         # a tag named twice in a trash list is accepted by the activator and harmless (the second trash of the same handler
         # only bumps its lazy-deletion counter / finds nothing to remove); every tag after it must still be honoured. The
